@@ -69,6 +69,14 @@ class OkImplies:
         return self.desc_place(body, p, depth)
 
     def desc_place(self, body, p, depth=4):
+        rp = root_place(body, p)
+        if rp is not None and rp != p:
+            # a closure capture or another temp: name it by the variable it came from
+            for d in body.j["dbg"]:
+                if d["p"]["l"] == rp["l"] and d["p"]["p"] and d["p"]["p"] == rp["p"][:len(d["p"]["p"])]:
+                    return "var:" + d["name"]
+            if place_fields(rp):
+                return "field:" + place_fields(rp)[-1]
         names = [e.split(":", 1)[1] for e in p["p"] if e.startswith(".") and e.split(":", 1)[1] and not e.split(":", 1)[1].isdigit()]
         if names:
             return "field:" + names[-1]
@@ -110,8 +118,14 @@ class OkImplies:
             return frozenset()
         l = op_local(o)
         if l is None:
+            p = op_place(o)
+            if p is not None and p["p"]:
+                # a boolean field / captured flag tested directly
+                return frozenset([("flag", bool(want), self.desc_place(body, p))])
             return frozenset()
         ds = [d for d in body.defs().get(l, []) if not d[2]["d"]["p"]]
+        if len(ds) == 1 and ds[0][1] != "T" and ds[0][2]["rv"]["r"] == "use" and op_place(ds[0][2]["rv"]["o"]) is not None and op_place(ds[0][2]["rv"]["o"])["p"]:
+            return frozenset([("flag", bool(want), self.desc_place(body, op_place(ds[0][2]["rv"]["o"])))])
         if len(ds) != 1:
             # `a || b` / `a && b` lower to several constant/conditional assignments: not a single fact
             return self._shortcircuit(body, l, ds, want, depth)
